@@ -34,7 +34,29 @@ Link ==
           \cup {V("C19", "answer_matches_request", [iface |-> "rating-first-tariff", misbehaving |-> Ev.iface, fate_before |-> prior(i)])
                   : i \in {i \in ran : us[i].finished /\ (us[i].usedCostFirst >= 0 \/ us[i].usedCostFirst = -3)
                                        /\ ~(Len(us[i].own.rating) >= 1 /\ us[i].usedCostFirst = us[i].own.rating[1])}}
+          \* a request that the peers answer promptly completes with its own answers, whatever happened to earlier ones
+          \* ("it never prevents later requests of that subscriber from completing")
+          \cup {V("C19", "later_request_completes", [iface |-> Ev.iface, fate_before |-> prior(i), ms |-> us[i].ms,
+                                                     rating |-> us[i].usedRating, abmf |-> us[i].usedAbmf])
+                  : i \in {i \in ran : ~Ev.dense /\ Ev.fates[i] = "prompt" /\ us[i].finished
+                                       /\ ~(/\ us[i].ms < 4500
+                                            /\ Len(us[i].own.rating) >= 2 /\ us[i].usedRating = us[i].own.rating[2]
+                                            /\ Len(us[i].own.abmf) >= 1 /\ us[i].usedAbmf = us[i].own.abmf[1])}}
           \cup {V("C19", "request_fails_cleanly", [iface |-> Ev.iface, status |-> us[i].status]) : i \in {i \in ran : us[i].finished /\ us[i].status # 200}}
+  /\ div' = div
+\* two subscribers in flight at once, one of them with answers held for 2 s: every operation acts on answers to its own
+\* requests (the first sentence of C19 names no subscriber) and completes
+Cross ==
+  /\ Ev.action = "cross"
+  /\ LET ss == Ev.sides IN
+     viol' = viol
+       \cup {V("C19", "answer_matches_request", [iface |-> "cross-subscriber", misbehaving |-> Ev.iface, fate_before |-> "slow"])
+               : i \in {i \in 1..Len(ss) : \/ (ss[i].usedAbmf # -1 /\ ss[i].usedAbmf \notin ToSet(ss[i].own.abmf))
+                                           \/ (ss[i].usedRating >= 0 /\ ss[i].usedRating \notin ToSet(ss[i].own.rating))}}
+       \cup {V("C19", "later_request_completes", [iface |-> Ev.iface, fate_before |-> "slow", ms |-> ss[i].ms,
+                                                  rating |-> ss[i].usedRating, abmf |-> ss[i].usedAbmf])
+               : i \in {i \in 1..Len(ss) : ~(ss[i].finished /\ ss[i].status = 200
+                                             /\ ss[i].usedAbmf \in ToSet(ss[i].own.abmf) /\ ss[i].usedRating \in ToSet(ss[i].own.rating))}}
   /\ div' = div
 Leak ==
   /\ Ev.action = "leak"
@@ -49,6 +71,6 @@ Finish == /\ l = Len(Trace) + 1
           /\ PrintT(<<"VF-RESULT", ToJson([consumed |-> l - 1, viol |-> viol, div |-> div])>>)
           /\ l' = l + 1 /\ UNCHANGED <<viol, div>>
 TInit == l = 1 /\ viol = {} /\ div = {}
-TNext == (l <= Len(Trace) /\ l' = l + 1 /\ (Link \/ Leak)) \/ Finish
+TNext == (l <= Len(Trace) /\ l' = l + 1 /\ (Link \/ Cross \/ Leak)) \/ Finish
 TSpec == TInit /\ [][TNext]_tvars
 =============================================================================
